@@ -23,12 +23,61 @@ import (
 func main() {
 	c := vlib.New("C01", "model_checking")
 	o := fcheck.Opts(c)
-	var evals, encoded, extra int64
+	o.Invalid = true
+	var evals, encoded, extra, histories int64
 	var mu sync.Mutex
 	distinct := map[uint64]struct{}{}
 	kinds := map[string]int{}
+	// histories of two encodes on one codec: whatever the first frame was - valid, or refused by the encoder
+	// after part of it had been written - a fixed probe frame encoded next must come out as it does alone
+	probeBytes := map[string][]byte{}
+	var pmu sync.Mutex
+	probe := func(cs gen.Case, comp primitive.Compression, codec frame.Codec) {
+		v := cs.Frame.Header.Version
+		pf := frame.NewFrame(v, 7, &message.Query{Query: "SELECT probe FROM after_a_previous_encode", Options: &message.QueryOptions{Consistency: primitive.ConsistencyLevelOne}})
+		pf.Header.Flags |= primitive.HeaderFlagCompressed
+		key := fmt.Sprintf("%v|%s", v, comp)
+		pmu.Lock()
+		want, ok := probeBytes[key]
+		pmu.Unlock()
+		buf := &bytes.Buffer{}
+		if err := codec.EncodeFrame(pf, buf); err != nil {
+			c.Violation(map[string]string{"kind": "history-encode-error", "compression": string(comp)}, fmt.Sprintf("after encoding %s (%s) the next frame is refused: %v", cs.Name, comp, err), cs.Name)
+			return
+		}
+		if !ok {
+			fresh := &bytes.Buffer{}
+			_ = fcheck.Codec(comp).EncodeFrame(gen.Clone(pf).(*frame.Frame), fresh)
+			pmu.Lock()
+			if probeBytes[key] == nil {
+				probeBytes[key] = fresh.Bytes()
+			}
+			want = probeBytes[key]
+			pmu.Unlock()
+		}
+		if !bytes.Equal(buf.Bytes(), want) {
+			c.Violation(map[string]string{"kind": "history-leftover", "compression": string(comp), "first-invalid": fmt.Sprint(cs.Invalid)}, fmt.Sprintf("a frame encoded right after %s (%s, refused=%v) differs from the same frame encoded alone (%d vs %d bytes): state left behind by the previous encode", cs.Name, comp, cs.Invalid, buf.Len(), len(want)), cs.Name)
+		}
+	}
 	one := func(cs gen.Case) {
 		v := cs.Frame.Header.Version
+		if cs.Invalid {
+			// only the error-path history: encode (normally refused), then the probe
+			for _, comp := range fcheck.Compressions(v) {
+				if comp == primitive.CompressionNone {
+					continue
+				}
+				codec := fcheck.Codec(comp)
+				f := gen.Clone(cs.Frame).(*frame.Frame)
+				f.Header.Flags |= primitive.HeaderFlagCompressed
+				atomic.AddInt64(&histories, 1)
+				if pv, _ := vlib.Catch(func() { _ = codec.EncodeFrame(f, &bytes.Buffer{}) }); pv != nil {
+					continue // a panic on an invalid frame is not this property's business
+				}
+				probe(cs, comp, codec)
+			}
+			return
+		}
 		for _, comp := range fcheck.Compressions(v) {
 			codec := fcheck.Codec(comp)
 			flags := []bool{false}
@@ -93,6 +142,9 @@ func main() {
 					c.Violation(keys, fmt.Sprintf("%s (%s, compressed=%v): encoded frame does not decode: %v\n%s", cs.Name, comp, cf, err, gen.Describe(orig.Body.Message)), replay(cs, comp, cf, wire))
 					continue
 				}
+				if cf {
+					probe(cs, comp, codec)
+				}
 				if d := gen.Equal(orig, got, fcheck.Ignore); d != "" {
 					keys["kind"], keys["diff"], keys["msg"] = "mismatch", fcheck.DiffClass(d), fcheck.Kind(cs.Name)
 					if cause := lz4cause(); cause != "" {
@@ -136,6 +188,7 @@ func main() {
 	c.Set("traces_validated_against_impl", encoded)
 	c.Set("evaluations", evals)
 	c.Set("frames_generated", n)
+	c.Set("error_path_histories", histories)
 	c.Set("distinct_nontrivial", int64(len(distinct)))
 	c.Set("message_kinds", len(kinds))
 	c.Set("bound", map[string]interface{}{"field_deviations": o.D, "type_depth": o.TypeDepth, "large_strings": o.Thorough})
